@@ -273,6 +273,17 @@ def canonical(ops, obs):
 
 def first_difference(ops, real, model):
     (robs, rdata), (mobs, mdata) = real, model
+    if any(isinstance(x, str) and x.startswith("<no _") for o in robs for x in o[1:4]):
+        # the class no longer keeps its state under the names _buffer / _remaining / _type (a rename of private attributes): only what
+        # a caller can see is compared - the result of every call, the stream position after it, the stream content at the end
+        for i, (a, b) in enumerate(zip(robs, mobs)):
+            if (a[0], a[4]) != (b[0], b[4]):
+                return i, f"after call {i} {ops[i]}: result / tell() differ - real {(a[0], a[4])}, model {(b[0], b[4])}"
+        if len(robs) != len(mobs):
+            return min(len(robs), len(mobs)), f"the model answered {len(mobs)} calls for {len(robs)}"
+        if rdata != mdata:
+            return len(ops), f"stream content at the end: real {rdata.hex()}, model {mdata.hex()}"
+        return None
     rc, mc = canonical(ops, robs), canonical(ops, mobs)
     for i, (a, b) in enumerate(zip(rc, mc)):
         if a != b:
